@@ -85,7 +85,8 @@ theorem C03_floor (rnd : Rat → Rat) (o : Oracle) (k : Nat) (globalDry : Bool) 
     simp only at hact
     have hm0 := noUpdate_noTaintAdd (view := view) (metrics_noUpdate hmj)
     have hf0 := fun k' g' c => noUpdate_noTaintAdd (view := view) (tryDelete_noUpdate o k' g' c)
-    rcases hact with ⟨hneg, hj | hj⟩ | ⟨hpos, hj⟩ | ⟨hz, hj⟩
+    rcases hact with hj | ⟨hneg, hj | hj⟩ | ⟨hpos, hj⟩ | ⟨hz, hj⟩
+    · rw [hj]; exact zero _ (by simp [List.countP_append, hm0, hf0])
     · rw [hj]; exact zero _ (by simp [List.countP_append, hm0, hf0])
     · rw [hj]
       simp only [List.countP_append, hm0, hf0, Nat.zero_add]
